@@ -296,7 +296,7 @@ def histories(progs, variants, tier):
 
 
 # ---------------------------------------------------------------- disk faults
-CORRUPTIONS = ["bitflip", "truncate", "payload-not-bytes", "sig-missing", "sig-wrong-type", "sig-flipped", "payload-missing", "transplant", "malicious-resigned-foreign-key"]
+CORRUPTIONS = ["bitflip", "truncate", "payload-not-bytes", "sig-missing", "sig-wrong-type", "sig-flipped", "sig-non-ascii", "sig-empty", "payload-missing", "transplant", "malicious-resigned-foreign-key"]
 
 
 def corrupt(raw, key, kind, other_key=None):
@@ -318,6 +318,10 @@ def corrupt(raw, key, kind, other_key=None):
         raw.set(key + sfx, 12345)
     elif kind == "sig-flipped":
         raw.set(key + sfx, ("0" if sig[0] != "0" else "1") + sig[1:])
+    elif kind == "sig-non-ascii":
+        raw.set(key + sfx, "\u00e9" + sig[1:])  # a damaged signature need not be ASCII
+    elif kind == "sig-empty":
+        raw.set(key + sfx, "")
     elif kind == "payload-missing":
         raw.delete(key)
     elif kind == "transplant":
